@@ -32,6 +32,10 @@ pub const POSITIONS: &[&str] = &[
     "fen 8/2p5/3p4/KP5r/1R3p1k/8/4P1P1/8 w - - 0 1",
 ];
 
+/// Roots without a legal move (stalemate, two checkmates), all given as FEN: every kind of go ends there at once
+/// and must still be answered with exactly one bestmove line (`bestmove none`)
+pub const DEAD: &[&str] = &["fen 7k/5Q2/6K1/8/8/8/8/8 b - - 0 1", "fen rnb1kbnr/pppp1ppp/8/4p3/6Pq/5P2/PPPPP2P/RNBQKBNR w KQkq - 1 3", "fen R5k1/5ppp/8/8/8/8/8/6K1 b - - 0 1"];
+
 #[derive(Serialize, Deserialize, Clone, Debug)]
 pub struct Intent {
     /// what the GUI would like to do next; mapped onto a command that is unambiguous in the current state
@@ -91,6 +95,8 @@ impl C14 {
         let grace = GRACE_MS + 2 * hook_total;
 
         let mut game = false;
+        // the position set is one of DEAD
+        let mut dead = false;
         let mut searching: Option<Searching> = None;
         let mut n_search = 0u32;
         let mut during = 0u32;
@@ -133,9 +139,10 @@ impl C14 {
             ev.eval();
             if searching.is_none() && it.what >= EARLY_GO {
                 // the impatient GUI's pair: a go with a small budget of its own, and (below) the next go a moment later
-                if !game {
+                if !game || dead {
                     s.send(&format!("position {}", POSITIONS[(it.a / 7) as usize % POSITIONS.len()]));
                     game = true;
+                    dead = false;
                 }
                 let (cmd, sr) = match it.a % 7 {
                     0 => ("go depth 1".to_string(), Searching::Depth),
@@ -181,7 +188,12 @@ impl C14 {
                         }
                     }
                     3 | 4 => {
-                        s.send(&format!("position {}", POSITIONS[it.a as usize % POSITIONS.len()]));
+                        dead = it.b % 4 == 3;
+                        if dead {
+                            s.send(&format!("position {}", DEAD[it.a as usize % DEAD.len()]));
+                        } else {
+                            s.send(&format!("position {}", POSITIONS[it.a as usize % POSITIONS.len()]));
+                        }
                         game = true;
                         s.send("isready");
                         match expect!(|l| l == "readyok", grace) {
@@ -198,6 +210,7 @@ impl C14 {
                         if !game && it.a % 3 != 0 {
                             s.send(&format!("position {}", POSITIONS[(it.a / 3) as usize % POSITIONS.len()]));
                             game = true;
+                            dead = false;
                         }
                         if !game {
                             s.send("go depth 2");
@@ -226,6 +239,25 @@ impl C14 {
                                 }
                                 _ => ("go infinite".to_string(), Searching::Infinite),
                             };
+                            if dead {
+                                // no legal move: whatever the kind of go, the search is over at once and is owed its one answer
+                                s.send(&cmd);
+                                n_search += 1;
+                                accepted_go += 1;
+                                let before = bestmoves;
+                                match expect!(|l| l.starts_with("bestmove") || l.starts_with("error"), grace) {
+                                    Some(ls) if bestmoves == before + 1 && !ls.iter().any(|l| l.starts_with("error")) => {
+                                        if ls.last().map(|l| l.trim() != "bestmove none").unwrap_or(true) {
+                                            fail!("move-announced-for-a-dead-root", "{:?} in {}: {:?}", cmd, "a position without legal moves", ls.last());
+                                        }
+                                    }
+                                    other => fail!("no-bestmove", "{:?} in a position without legal moves was not answered with a bestmove line: {:?}", cmd, other.map(|l| l.last().cloned())),
+                                }
+                                ev.class("go_on_a_root_without_legal_moves");
+                                game = false;
+                                dead = false;
+                                continue;
+                            }
                             s.send(&cmd);
                             go_sent_at = Some(Instant::now());
                             searching = Some(sr);
@@ -272,6 +304,7 @@ impl C14 {
                     8 => {
                         s.send("ucinewgame");
                         game = false;
+                        dead = false;
                     }
                     9 => {
                         s.send("stop");
@@ -532,7 +565,7 @@ impl Prop for C14 {
     }
 
     fn rule(&self) -> String {
-        "Cases (model-based): 3-16 GUI intents over {isready, uci, show, position, go depth|movetime|depth+movetime|clock|infinite, ucinewgame, stop, wait} interpreted by a GUI state machine (no game / game set / searching) so that every expectation is unambiguous, each preceded by a generated delay of 0/1/5/20/100 ms, together with a generated delay 0/20/100 ms for each of nine schedule points in command_go and the search-thread epilogue (before_flag_raise, after_flag_raise, timer_wakeup, before_search_spawn, search_thread_start, after_search_return, after_flag_clear, after_game_drop, after_bestmove_print). Run against the real binary built with the hooks. History invariants: exactly one bestmove per accepted go (never `none` here), each within its deadline (depth: grace; timed: budget + hook delays + grace; infinite: only after stop - the curated positions have no forced mate or single reply, so an infinite search that announces a move by itself, or a `go movetime T` answered well before T, is a violation: that is how a stale timer of an earlier `go depth d movetime T` shows), isready answered while idle and while searching, show/position/go refused while an infinite search runs, ucinewgame while searching stops the search (its bestmove is there before the next readyok), quit while searching exits with status 0, a position + go sent right after a bestmove line was read are honoured, an impatient GUI's early `position` + `go` sent 0-20 ms after a go with a small budget of its own (depth 1/3, movetime 0-20, exhausted clocks) - without waiting for the answer - is either refused with an error line or accepted, and after `stop` + `readyok` the number of bestmove lines equals the number of accepted go commands with no panic on stderr (one intent in five is such a pair), no stray bestmove at the end, no panic on stderr, exit status 0 after quit. evaluations = commands issued. Non-trivial session: at least two searches and (a stretched schedule point or a command sent while searching); distinct by command script and delays.".into()
+        "Cases (model-based): 3-16 GUI intents over {isready, uci, show, position, go depth|movetime|depth+movetime|clock|infinite, ucinewgame, stop, wait} interpreted by a GUI state machine (no game / game set / searching) so that every expectation is unambiguous, each preceded by a generated delay of 0/1/5/20/100 ms, together with a generated delay 0/20/100 ms for each of nine schedule points in command_go and the search-thread epilogue (before_flag_raise, after_flag_raise, timer_wakeup, before_search_spawn, search_thread_start, after_search_return, after_flag_clear, after_game_drop, after_bestmove_print). Run against the real binary built with the hooks. History invariants: exactly one bestmove per accepted go (never `none` here), each within its deadline (depth: grace; timed: budget + hook delays + grace; infinite: only after stop - the curated positions have no forced mate or single reply, so an infinite search that announces a move by itself, or a `go movetime T` answered well before T, is a violation: that is how a stale timer of an earlier `go depth d movetime T` shows), isready answered while idle and while searching, show/position/go refused while an infinite search runs, ucinewgame while searching stops the search (its bestmove is there before the next readyok), quit while searching exits with status 0, a position + go sent right after a bestmove line was read are honoured, an impatient GUI's early `position` + `go` sent 0-20 ms after a go with a small budget of its own (depth 1/3, movetime 0-20, exhausted clocks) - without waiting for the answer - is either refused with an error line or accepted, and after `stop` + `readyok` the number of bestmove lines equals the number of accepted go commands with no panic on stderr (one intent in five is such a pair), a go (of any kind) on a root without legal moves - one position command in four sets a stalemated or checkmated root - is answered at once with exactly one `bestmove none` line, no stray bestmove at the end, no panic on stderr, exit status 0 after quit. evaluations = commands issued. Non-trivial session: at least two searches and (a stretched schedule point or a command sent while searching); distinct by command script and delays.".into()
     }
 
     fn assumptions(&self) -> Vec<String> {
